@@ -1306,16 +1306,19 @@ impl SourceBuf {
             return Ok(false);
         }
 
-        let (sym, sym_end) =
-            match Symbol::from_slice_index(&self.buf, sym_end) {
-                Ok(Some(some)) => some,
-                _ => return Ok(false),
-            };
+        // The marker has to be a token of its own. Whatever ends it (white
+        // space, the start of a comment, a parenthesis, a line feed) is left
+        // for `next_item` to deal with.
+        let marker_end = sym_end;
+        let sym = match Symbol::from_slice_index(&self.buf, marker_end) {
+            Ok(Some((sym, _))) => sym,
+            _ => return Ok(false),
+        };
         if sym.is_word_char() {
             return Ok(false);
         }
 
-        self.start = sym_end;
+        self.start = marker_end;
         self.cat = ItemCat::None;
         self.next_item()?;
         Ok(true)
